@@ -1,9 +1,11 @@
 use crate::Ctx;
 pub mod c14;
+pub mod c20;
 
 pub fn run(ctx: &mut Ctx, suite: &str) {
     match suite {
         "c14" => c14::run(ctx),
+        "c20" => c20::run(ctx),
         _ => {
             eprintln!("unknown suite {suite}");
             std::process::exit(2);
@@ -17,6 +19,8 @@ pub fn replay(ctx: &mut Ctx, tag: &str, args: &[&str]) {
         "c14" => c14::case_ops(ctx, args[0], args[1]),
         "c14a" => c14::case_ascii(ctx, args[0], args[1]),
         "c14n" => c14::case_num(ctx, args[0], args[1]),
+        "c20e" => c20::case_error(ctx, args[0]),
+        "c20s" => c20::case_status(ctx, args[0], args[1]),
         _ => eprintln!("unknown case tag {tag}"),
     }
 }
